@@ -35,5 +35,8 @@ def replay(f):
         except Exception:
             tags = ["untagged"]
         if tags:
-            r["signature"] = r["signature"].replace("|", "/") + "".join("|" + t for t in tags)
+            from harness.bref_replay import manifestation
+
+            how = manifestation(r["signature"])
+            r["signature"] = r["signature"].replace("|", "/") + "".join("|%s@%s" % (t, how) for t in tags)
     return r
